@@ -24,9 +24,11 @@ dim}.rs` restricted to them.  What is new (everything else is C01's generator, c
                         UnStashFunctionReturnValue @p
       (the whole array travels through register A, the argument list, the by-reference queue and back into the
        variable; `d` is by reference when it is a variable or an array element: `Expression::is_by_ref`)
-    READ a(i…)          … ⟦a(i…)⟧path · CopyVarPathToA · PushUnnamedByRef @target … BuiltInSub(Read) …
+    READ a(i…)          BeginCollectArguments @p · ⟦a(i…)⟧path · CopyVarPathToA · PushUnnamedByRef @target ·
+                        PushStack · BuiltInSub(Read) @p · EnqueueToReturnStack 0 @target · PopStack @p ·
                         DequeueFromReturnStackWithPath · CopyAToVarPath @target
-      (the path resolved before the call is queued with the value and restored for the store)
+      (the path resolved before the call is queued with the value and restored for the store; `READ a, b` is
+       generated as `READ a : READ b`, one built-in call per target — fd1c771)
 
 Branch targets are absolute addresses computed structurally, label names are emitted too, and `normalise` maps the
 real instruction list into the model's vocabulary (`VarPathName` becomes `varPath x` or `arrPath a` through the two
@@ -138,18 +140,31 @@ def compileDims (p : Pos) : Dims → Code
 
 def sizeDims (dims : Dims) : Nat := (compileDims ⟨0, 0⟩ dims).length
 
-/-- READ: the targets as by-reference arguments -/
-def pushTargets : List ReadTarget → Code
-  | [] => []
-  | .var x _ q :: rest => [(.varPath x, q), (.copyVarPathToA, q), (.pushByRef, q)] ++ pushTargets rest
-  | .elem a _ idx q :: rest =>
-    [(.arrPath a, q)] ++ compileIdx idx ++ [(.copyVarPathToA, q), (.pushByRef, q)] ++ pushTargets rest
+/-- READ: one target as a by-reference argument -/
+def pushTarget : ReadTarget → Code
+  | .var x _ q => [(.varPath x, q), (.copyVarPathToA, q), (.pushByRef, q)]
+  | .elem a _ idx q => [(.arrPath a, q)] ++ compileIdx idx ++ [(.copyVarPathToA, q), (.pushByRef, q)]
 
-/-- READ: the write-backs (`generate_un_stash_by_ref_args`) -/
-def writeTargets : List ReadTarget → Code
+/-- READ: the write-back of one target (`generate_un_stash_by_ref_args`) -/
+def writeTarget : ReadTarget → Code
+  | .var x _ q => [(.dequeue, q), (.varPath x, q), (.copyAToVarPath, q)]
+  | .elem _ _ _ q => [(.dequeuePath, q), (.copyAToVarPath, q)]
+
+/-- READ of one target: one call of the built-in -/
+def readOne (p : Pos) (tg : ReadTarget) : Code :=
+  [(.beginArgs, p)] ++ pushTarget tg ++
+    [(.pushStack, p), (.builtInRead, p), (.enqueue 0, tg.pos), (.popStack, p)] ++ writeTarget tg
+
+/-- `READ a, b, …` is generated as `READ a : READ b : …` (one built-in call per target, since fd1c771) -/
+def compileReads (p : Pos) : List ReadTarget → Code
   | [] => []
-  | .var x _ q :: rest => [(.dequeue, q), (.varPath x, q), (.copyAToVarPath, q)] ++ writeTargets rest
-  | .elem _ _ _ q :: rest => [(.dequeuePath, q), (.copyAToVarPath, q)] ++ writeTargets rest
+  | tg :: rest => readOne p tg ++ compileReads p rest
+
+def sizeRead (tg : ReadTarget) : Nat := (readOne ⟨0, 0⟩ tg).length
+
+def sizeReads : List ReadTarget → Nat
+  | [] => 0
+  | tg :: rest => sizeRead tg + sizeReads rest
 
 def compileItem (p : Pos) : PrintItem → Code
   | .expr e => compileExpr e ++ [(.printValue, e.pos)]
@@ -195,7 +210,7 @@ def sizeStmt : SStmt → Nat
   | .assignElem _ t idx e _ => (compileExprTo e t).length + 1 + (compileIdx idx).length + 1
   | .print items _ => 3 + sizeItems items + 1
   | .data items _ => 1 + 2 * items.length + 3
-  | .read tgs _ => 1 + (pushTargets tgs).length + 2 + tgs.length + 1 + (writeTargets tgs).length
+  | .read tgs _ => if tgs.isEmpty then 4 else sizeReads tgs
   | .ifBlock c thn elifs hasElse els _ =>
     (compileExpr c).length + 1 + sizeStmt thn + 1 + sizeElifs elifs + (if hasElse then 1 + sizeStmt els else 0) + 1
   | .select e cases hasElse els _ =>
@@ -275,8 +290,9 @@ def compileStmt : String → Nat → SStmt → Code
     [(.beginArgs, p)] ++ items.flatMap (fun (v, q) => [(.loadA v, q), (.pushByVal, q)]) ++
       [(.pushStack, p), (.builtInData, p), (.popStack, p)]
   | sfx, _, .read tgs p =>
-    [(.beginArgs, p)] ++ pushTargets tgs ++ [(.pushStack, p), (.builtInRead, p)] ++
-      (tgs.zipIdx).map (fun (tg, i) => (.enqueue i, tg.pos)) ++ [(.popStack, p)] ++ writeTargets tgs
+    -- `READ a, b` is generated as `READ a : READ b` (one built-in call per target)
+    if tgs.isEmpty then [(.beginArgs, p), (.pushStack, p), (.builtInRead, p), (.popStack, p)]
+    else compileReads p tgs
   | sfx, off, .ifBlock c thn elifs hasElse els p =>
     let nc := (compileExpr c).length
     let thnOff := off + nc + 1
